@@ -777,7 +777,7 @@ def generateExpansion (start stop step : Nat) (lhs rhs : List Nat) (lm rm : Modi
     (substIndex lhs lm (start + k), substIndex rhs rm (start + k))
 
 /-- one index of the `for` loop of `_generate_line`, up to `txn.add`: `none` = the owner is out of zone
-(`_eat_line(); return`) -/
+(`continue`) -/
 def genItem (ttl ty : Nat) (item : List Nat × List Nat) (r : PState) : RM (Option Entry × PState) :=
   match fromText item.1 r.currentOrigin with
   | .error e => .error (.ofName e)
@@ -802,13 +802,14 @@ def genItem (ttl ty : Nat) (item : List Nat × List Nat) (r : PState) : RM (Opti
           | .error e => .error e
           | .ok (rd, comment, _) => pure (some ⟨name, ttl, ty, ⟨rd, comment⟩⟩, r)
 
-/-- the `for` loop of `_generate_line`; the flag is `true` when it was left at an out-of-zone owner -/
-def generateLoop (ttl ty : Nat) : List (List Nat × List Nat) → PState → ZoneMap → RM (Bool × PState × ZoneMap)
-  | [], r, z => pure (false, r, z)
+/-- the `for` loop of `_generate_line`: a generated owner outside the zone is skipped (`continue`; `fix:` commit
+202894b — the loop used to stop there), every other index hands its record to `txn.add` -/
+def generateLoop (ttl ty : Nat) : List (List Nat × List Nat) → PState → ZoneMap → RM (PState × ZoneMap)
+  | [], r, z => pure (r, z)
   | item :: rest, r, z => do
     let (e, r) ← genItem ttl ty item r
     match e with
-    | none => pure (true, r, z)
+    | none => generateLoop ttl ty rest r z
     | some e =>
       let z ← addEntry z r.effOrigin e
       generateLoop ttl ty rest r z
@@ -868,11 +869,7 @@ def generateParse (r : PState) : RM (GenHeader × PState) := do
 /-- `_generate_line` -/
 def generateLine (r : PState) (z : ZoneMap) : RM (PState × ZoneMap) := do
   let (h, r) ← generateParse r
-  let (stopped, r, z) ← generateLoop h.ttl h.rdtype h.items r z
-  if stopped then do
-    let s ← eatLine (r.tok.input.length + 2) r.tok
-    pure ({ r with tok := s }, z)
-  else pure (r, z)
+  generateLoop h.ttl h.rdtype h.items r z
 
 /-- `c.upper()` of the directive token -/
 def directiveOf (v : List Nat) : List Nat := v.map upperAscii
